@@ -220,6 +220,9 @@ impl<C: NtpClock> Server<C> {
             return Err(ServerAction::Ignore);
         }
 
+        // Set when the request carried NTS fields that could not be decrypted
+        let mut undecryptable_nts = false;
+
         // Try and parse the message
         let (packet, cookie) = match NtpPacket::deserialize(message, self.keyset.as_ref()) {
             Ok((packet, cookie)) => {
@@ -251,6 +254,7 @@ impl<C: NtpClock> Server<C> {
                     action = ServerResponse::NTSNak;
                     reason = ServerReason::InvalidCrypto;
                 }
+                undecryptable_nts = true;
                 (packet, None)
             }
             Err(_) => {
@@ -340,7 +344,8 @@ impl<C: NtpClock> Server<C> {
             action,
             reason,
             version,
-            nts,
+            // an answered request whose NTS fields failed to decrypt still counts as NTS
+            nts: nts || undecryptable_nts,
             packet,
             cipher,
             desired_size,
